@@ -572,7 +572,7 @@ impl Property for C38 {
         "the handler observer::handle_connection is private to observer.rs; the check calls sockets::write_json on an ObservableState exactly as that handler does",
     ];
     const QUICK_CASES: u32 = 100_000;
-    const THOROUGH_CASES: u32 = 1_200_000;
+    const THOROUGH_CASES: u32 = 4_200_000;
 
     fn strategy(_tier: Tier) -> BoxedStrategy<Case> {
         let around = |c: u64| (-4i64..=4).prop_map(move |d| c.wrapping_add(d as u64));
